@@ -32,10 +32,22 @@ def fmt_dt(ms):
     return d.strftime('%Y-%m-%d %H:%M:%S.%f')
 
 
-def statement(attr, op, thr, use_datetime):
+def spell(thr, style):
+    """one of several spellings of the same number (all of them parse back to exactly thr)"""
+    cands = [repr(thr), '%.17g' % thr, '%.16e' % thr, '%.17e' % thr, ('%.16e' % thr).replace('e+', 'E+').replace('e-', 'E-')]
+    if float(thr).is_integer() and abs(thr) < 1e15:
+        cands += ['%d' % int(thr), '%d.0' % int(thr), '%.1f' % thr]
+        m, e = ('%e' % thr).split('e')
+        if float(m.rstrip('0').rstrip('.') + 'e' + e) == thr:
+            cands.append(m.rstrip('0').rstrip('.') + 'e' + str(int(e)))      # e.g. 3e1, 9.466848e11
+    s_ = cands[style % len(cands)]
+    return s_ if float(s_) == float(thr) else repr(thr)
+
+
+def statement(attr, op, thr, use_datetime, style=0):
     if attr == 'origin_time' and use_datetime:
         return 'datetime %s %s' % (op, fmt_dt(thr))
-    return '%s %s %r' % (attr, op, thr)
+    return '%s %s %s' % (attr, op, spell(thr, style))
 
 
 class Realisation:
@@ -255,7 +267,7 @@ def run(chk, replay=None):
             inplace = rng.random() < 0.5
             k = rng.choice(['one', 'list', 'list', 'spatial', 'stored'])
             idx = [rng.randrange(m) + 1] if k == 'one' else ([] if k == 'spatial' else [rng.randrange(m) + 1 for _ in range(rng.randint(1, 3))])
-            strs = [statement(st_attrs[j - 1], st_ops[j - 1], thr[j - 1], use_dt[j - 1]) for j in idx]
+            strs = [statement(st_attrs[j - 1], st_ops[j - 1], thr[j - 1], use_dt[j - 1], style=t + j + len(calls)) for j in idx]
             o = objs[oi]
             if k == 'spatial':
                 r = guarded(o.filter_spatial, region, in_place=inplace, update_stats=(len(calls) % 2 == 1))
